@@ -12,7 +12,7 @@ The YAML reading itself is a parameter (taken from the real library by the harne
 namespace Heimdall.Config
 
 /-- a YAML scalar as the loader sees it; a float carries the text `strconv.FormatFloat(f, 'f', -1, 64)` gives it;
-    `null` is Go's nil; `coll` stands for a list or a map -/
+    `null` is Go's nil; `coll` stands for a list or a map; `time` is a timestamp (`2001-12-14`: Go's `time.Time`) -/
 inductive Scalar where
   | str (s : List Char)
   | int (n : Int)
@@ -20,6 +20,7 @@ inductive Scalar where
   | float (shown : List Char)
   | null
   | coll
+  | time
 deriving Repr, DecidableEq
 
 /-- the type of a leaf of the configuration struct; `text` are the leaves a decode hook parses from a string
@@ -71,7 +72,8 @@ def numeralLike (s : List Char) : Bool :=
   | [] => true
 
 /-- mapstructure's weakly typed decoding of a scalar into a leaf of the given type; `null` is Go's nil (the empty
-    variable, `null`, `~`), `coll` a text YAML reads as a list or a map (`[]`, `{}`) -/
+    variable, `null`, `~`), `coll` a text YAML reads as a list or a map (`[]`, `{}`), `time` a timestamp (no typed leaf
+    of the configuration takes a `time.Time`: the decoder fails; a free-form map keeps it) -/
 def decode : LeafType → Scalar → Leaf
   | .any, .coll => .unsupported
   | .any, y => .raw y
@@ -79,6 +81,10 @@ def decode : LeafType → Scalar → Leaf
   | .int, .coll => .fail
   | .bool, .coll => .fail
   | .text, .coll => .fail
+  | .string, .time => .fail
+  | .int, .time => .fail
+  | .bool, .time => .fail
+  | .text, .time => .fail
   | .string, .str s => .str s
   | .string, .int n => .str (showInt n)
   | .string, .bool b => .str (if b then c!"1" else c!"0")
